@@ -68,6 +68,7 @@ type Fabric struct {
 	rules       []dialRule
 	plans       []dialPlan
 	sinceDriver int
+	budget      int
 	Dials       int // number of dial attempts made
 	// DriverMode: sockets created while set belong to the driver (peers)
 	DriverMode bool
@@ -91,11 +92,17 @@ const MaxPackets = 5000
 //go:norace
 func addLog(p Packet) {
 	// the horizon counts what the program emits in response to one stimulus of the driver
+	// (plus one packet per byte of that stimulus: answering every keep-alive of a long run of CRLFs is
+	// proportionate, not a loop)
 	if p.Driver {
+		if Fab.sinceDriver > 0 || Fab.budget == 0 {
+			Fab.budget = MaxPackets
+		}
 		Fab.sinceDriver = 0
+		Fab.budget += len(p.Data)
 	} else {
 		Fab.sinceDriver++
-		if Fab.sinceDriver > MaxPackets {
+		if Fab.sinceDriver > Fab.budget {
 			panic("vnet: packet horizon exceeded (the program keeps emitting after one stimulus: relay loop?)")
 		}
 	}
